@@ -6,6 +6,10 @@ cfg_if::cfg_if! {
     if #[cfg(target_family = "wasm")] {
         use web_time::{Duration, Instant};
     }
+    else if #[cfg(clarabel_verif)] {
+        use std::time::Duration;
+        use crate::verif::SimInstant as Instant;
+    }
     else {
         use std::time::{Duration, Instant};
     }
@@ -142,11 +146,15 @@ impl Timers {
     }
 
     pub fn reset_timer(&mut self, key: &'static str) {
+        #[cfg(clarabel_verif)]
+        crate::verif::emit(crate::verif::Event::TimerReset(key));
         self.subtimers.reset_subtimer(key);
     }
 
     pub fn start_as_current(&mut self, key: &'static str) {
         //starts a timer with name "str" as the current timer
+        #[cfg(clarabel_verif)]
+        crate::verif::emit(crate::verif::Event::TimerStart(key));
 
         let active_timer = self.mut_active_timer();
 
@@ -170,16 +178,26 @@ impl Timers {
 
         //remove from timer call stack
         self.stack.pop();
+        #[cfg(clarabel_verif)]
+        crate::verif::emit(crate::verif::Event::TimerStop);
     }
 
     //Suspend every timer in the collection.   Used for notimeit!
     pub fn suspend(&mut self) {
+        #[cfg(clarabel_verif)]
+        crate::verif::emit(crate::verif::Event::SuspendBegin);
         self.subtimers.suspend();
+        #[cfg(clarabel_verif)]
+        crate::verif::emit(crate::verif::Event::SuspendEnd);
     }
 
     //Resume every timer in the collection.   Used for notimeit!
     pub fn resume(&mut self) {
+        #[cfg(clarabel_verif)]
+        crate::verif::emit(crate::verif::Event::ResumeBegin);
         self.subtimers.resume();
+        #[cfg(clarabel_verif)]
+        crate::verif::emit(crate::verif::Event::ResumeEnd);
     }
 
     pub fn total_time(&self) -> Duration {
